@@ -801,7 +801,7 @@ func attackFrames(c *fw.Ctx, r *fw.Rand, snap bool, fr rawFrame) {
 func runHostilePeers(c *fw.Ctx) {
 	race := c.Leg == "rlpx-race"
 	full := c.Thorough() && !race
-	rounds := c.Pick(1, 6)
+	rounds := c.Pick(1, 3)
 	if race {
 		rounds = 1
 	}
